@@ -16,6 +16,7 @@ Definition bufSize : Z := 16384.            (* data.bufSize = 2 << 13 *)
 Definition ErrMalformedTag : Z := 10.
 Definition ErrNoProgress : Z := 11.         (* io.ErrNoProgress: device id with a zero first byte *)
 Definition ErrTagsTooLarge : Z := 12.
+Definition ErrTimeout : Z := 13.            (* any error of the underlying Read that is not io.EOF *)
 
 Record packet := mkP {
   p_id : Z; p_job : Z; p_flags : Z; p_tags : list Z; p_dev : list Z; p_pay : list Z; p_rpos : Z }.
@@ -277,6 +278,153 @@ Definition wf (p : packet) : bool :=
 (* the stream form goes through Chunk.Bytes / make([]byte, l): payload at most MaxSlice *)
 Definition wf_stream (p : packet) : bool := wf p && (len (p_pay p) <=? MaxSlice).
 
+(* ---- streams whose END is observable ------------------------------------------------
+   An io.Reader may deliver its last bytes TOGETHER with io.EOF (n > 0, err = EOF:
+   iotest.DataErrReader, decompressors, TLS, HTTP bodies), or fail with another error.  An esrc
+   is the chunks of the successive Read calls (as in src; an empty chunk is a (0, nil) read) and
+   how the stream ends:
+     FEof      (0, io.EOF) after the last chunk (what src models),
+     FLast c   the last chunk c is delivered with io.EOF in the Read that takes its last byte
+               (a Read with a shorter buffer gets (part, nil)), then (0, io.EOF),
+     FFail e   (0, e) after the last chunk, then (0, io.EOF).
+   The readers below are the code again, now with both results of Read: io.ReadFull keeps the
+   bytes and drops the error when the request is complete; Chunk.ReadFrom stores the bytes of
+   a Read BEFORE it looks at the error, ends the call on any error and swallows io.EOF;
+   readBody only compares the total with the announced length. *)
+Inductive fin := FEof | FLast (c : list Z) | FFail (e : Z).
+Definition esrc : Type := (src * fin)%type.
+
+(* one Read(p), len p = k > 0: (bytes, error, rest of the stream) *)
+Definition read1e (k : Z) (s : esrc) : list Z * option Z * esrc :=
+  match fst s with
+  | c :: rest => if len c <=? k then (c, None, (rest, snd s)) else (take k c, None, (drop k c :: rest, snd s))
+  | [] =>
+    match snd s with
+    | FEof => ([], Some EOF, s)
+    | FLast c => if len c <=? k then (c, Some EOF, ([], FEof)) else (take k c, None, ([], FLast (drop k c)))
+    | FFail e => ([], Some e, ([], FEof))
+    end
+  end.
+
+(* io.ReadFull = io.ReadAtLeast(r, buf, len buf): for n < min && err == nil { Read }; n >= min: nil;
+   n > 0 && err == EOF: ErrUnexpectedEOF; else err *)
+Fixpoint read_full_e (fuel : nat) (k : Z) (s : esrc) (acc : list Z) {struct fuel} : res (list Z * esrc) :=
+  if k <=? 0 then Ok (acc, s) else
+  match fuel with
+  | O => Err ErrOther
+  | S f =>
+    let '(got, e, s') := read1e k s in
+    if k - len got <=? 0 then Ok (acc ++ got, s')
+    else match e with
+         | None => read_full_e f (k - len got) s' (acc ++ got)
+         | Some x => if is_nil (acc ++ got) then Err x else if x =? EOF then Err ErrUnexpectedEOF else Err x
+         end
+  end.
+Definition efuel (s : esrc) : nat := S (S (S (length (fst s)))).
+
+Definition read_device_e (s : esrc) : res (list Z * esrc) :=
+  do '(d, s') <- read_full_e (efuel s) IDSize s [];
+  match d with
+  | b :: _ => if b =? 0 then Err ErrNoProgress else Ok (d, s')
+  | [] => Err ErrOther
+  end.
+
+Definition read_header_e (s : esrc) : res ((list Z * Z * Z * Z * Z * Z) * esrc) :=
+  do '(d, s1) <- read_device_e s;
+  do '(b, s2) <- read_full_e (efuel s1) 14 s1 [];
+  do '(id, job, fl, nt, cls) <- parse_fixed b;
+  do w <- class_width cls;
+  do '(lb, s3) <- read_full_e (efuel s2) w s2 [];
+  Ok ((d, id, job, fl, nt, of_be lb 0), s3).
+
+Fixpoint read_tags_e (n : nat) (s : esrc) : res (list Z * esrc) :=
+  match n with
+  | O => Ok ([], s)
+  | S n' =>
+    do '(b, s1) <- read_full_e (efuel s) 4 s [];
+    let t := of_be b 0 in
+    if t =? 0 then Err ErrMalformedTag
+    else do '(ts, s2) <- read_tags_e n' s1; Ok (t :: ts, s2)
+  end.
+
+(* readBody's loop over Chunk.ReadFrom under Limit = k + |acc|.  A Read that returns bytes and an
+   error: the bytes are stored, the ReadFrom call ends, io.EOF becomes nil (the outer loop calls
+   again while bytes are owed; a call that delivers nothing ends the loop), any other error ends
+   the loop; afterwards only the total counts: short is io.ErrUnexpectedEOF, complete is nil. *)
+Fixpoint read_body_e (fuel : nat) (k : Z) (s : esrc) (acc : list Z) (first : bool) {struct fuel}
+  : res (list Z * esrc) :=
+  if k <=? 0 then Ok (acc, s) else
+  match fuel with
+  | O => Err ErrOther
+  | S f =>
+    let '(got, e, s') := read1e (Z.min k bufSize) s in
+    match e with
+    | None =>
+      if is_nil got then (if first then Err ErrUnexpectedEOF else read_body_e f k s' acc true)
+      else read_body_e f (k - len got) s' (acc ++ got) false
+    | Some x =>
+      if x =? EOF then
+        (if is_nil got then (if first then Err ErrUnexpectedEOF else read_body_e f k s' acc true)
+         else read_body_e f (k - len got) s' (acc ++ got) true)
+      else if k - len got <=? 0 then Ok (acc ++ got, s') else Err ErrUnexpectedEOF
+    end
+  end.
+Definition ebytes (s : esrc) : list Z :=
+  concat (fst s) ++ match snd s with FLast c => c | _ => [] end.
+Definition body_fuel_e (s : esrc) : nat := S (S (S (length (fst s) + length (ebytes s)))).
+
+Definition unmarshal_e (s : esrc) : res (packet * esrc) :=
+  do '((d, id, job, fl, nt, l), s1) <- read_header_e s;
+  do '(ts, s2) <- read_tags_e (Z.to_nat nt) s1;
+  do '(pay, s3) <- (if l =? 0 then Ok ([], s2) else read_body_e (body_fuel_e s2) l s2 [] true);
+  Ok (mkP id job fl ts d pay 0, s3).
+
+(* the nested form through data.NewReader over such a stream.  reader.Uint8 is ONE Read of one
+   byte: a byte that arrives is used whatever the error says (after the repair of data_reader.go:
+   the code used to look at the error first and dropped a final byte delivered with io.EOF) *)
+Definition srd_u8_e (s : esrc) : res (Z * esrc) :=
+  let '(got, e, s') := read1e 1 s in
+  match got with
+  | b :: _ => Ok (b, s')
+  | [] => match e with Some x => Err x | None => Err EOF end
+  end.
+Definition srd_uN_e (n : Z) (s : esrc) : res (Z * esrc) :=
+  do '(b, s') <- read_full_e (efuel s) n s []; Ok (of_be b 0, s').
+Definition srd_prefix_e (s : esrc) : res (option Z * esrc) :=
+  do '(t, r) <- srd_u8_e s;
+  if t =? 0 then Ok (None, r)
+  else if (t =? 1) || (t =? 2) then do '(n, r') <- srd_u8_e r; Ok (Some n, r')
+  else if (t =? 3) || (t =? 4) then do '(n, r') <- srd_uN_e 2 r; Ok (Some n, r')
+  else if (t =? 5) || (t =? 6) then do '(n, r') <- srd_uN_e 4 r; Ok (Some n, r')
+  else if (t =? 7) || (t =? 8) then do '(n, r') <- srd_uN_e 8 r; Ok (Some n, r')
+  else Err ErrInvalidType.
+Definition srd_bytes_e (s : esrc) : res (list Z * esrc) :=
+  do '(ol, r) <- srd_prefix_e s;
+  match ol with
+  | None => Ok ([], r)
+  | Some l =>
+    if l =? 0 then Err ErrUnexpectedEOF
+    else if MaxSlice <? l then Err ErrTooLarge
+    else read_full_e (efuel r) l r []
+  end.
+Fixpoint srd_tags_e (n : nat) (s : esrc) : res (list Z * esrc) :=
+  match n with
+  | O => Ok ([], s)
+  | S n' =>
+    do '(t, r) <- srd_uN_e 4 s;
+    if t =? 0 then Err ErrMalformedTag
+    else do '(ts, r') <- srd_tags_e n' r; Ok (t :: ts, r')
+  end.
+Definition unmarshal_srd_e (s : esrc) : res (packet * esrc) :=
+  do '(id, r1) <- srd_u8_e s;
+  do '(job, r2) <- srd_uN_e 2 r1;
+  do '(t, r3) <- srd_uN_e 2 r2;
+  do '(fl, r4) <- srd_uN_e 8 r3;
+  do '(d, r5) <- read_device_e r4;
+  do '(ts, r6) <- srd_tags_e (Z.to_nat (Z.min t PacketMaxTags)) r5;
+  do '(pay, r7) <- srd_bytes_e r6;
+  Ok (mkP id job fl (ts ++ tags_pad t) d pay 0, r7).
+
 Definition nonempty_chunks (s : src) : Prop := Forall (fun c => c <> []) s.
 
 (* ---- data described by generators (large payloads / tag lists are not printed) ---- *)
@@ -343,6 +491,14 @@ Definition split (d : splitd) (b : list Z) : src :=
   | SEvery k => if k <=? 0 then [b] else chunks_of (length b) k b
   end.
 
+(* the end of the test reader's stream: 0 plain EOF, 1 the last chunk of the split arrives with
+   io.EOF, otherwise a failing Read (the code is the number) after the last chunk *)
+Definition esplit (d : splitd) (fmode : Z) (b : list Z) : esrc :=
+  let s := split d b in
+  if fmode =? 0 then (s, FEof)
+  else if fmode =? 1 then (removelast s, FLast (last s []))
+  else (s, FFail fmode).
+
 (* ---- correspondence cases ----------------------------------------------------------
    op codes of CFlag: 0 Clear, 1 Set, 2 Unset, 3 Len, 4 Position, 5 Group, 6 SetLen,
    7 SetPosition, 8 SetGroup *)
@@ -360,7 +516,10 @@ Inductive case :=
    leaves behind, observed as Size() - Remaining()), Size(), MarshalStream *)
 | CMarshalCur (p : pdesc) (cur : Z) (out : res (Z * Z)) (lit : option (list Z)) (cur_after : Z)
 | CSizeCur (p : pdesc) (cur : Z) (sz : Z)
-| CMarshalStreamCur (p : pdesc) (cur : Z) (n sum : Z) (lit : option (list Z)).
+| CMarshalStreamCur (p : pdesc) (cur : Z) (n sum : Z) (lit : option (list Z))
+(* readers over a stream whose end is observable (fmode as in esplit) *)
+| CUnmarshalE (input : list seg) (sp : splitd) (fmode : Z) (out : res (pdesc * Z))
+| CUnmarshalSrdE (input : list seg) (sp : splitd) (fmode : Z) (out : res (pdesc * Z)).
 
 Definition packet_eqb (a b : packet) : bool :=
   (p_id a =? p_id b) && (p_job a =? p_job b) && (p_flags a =? p_flags b)
@@ -423,4 +582,8 @@ Definition check (c : case) : bool :=
     end
   | CSizeCur p cur sz => size (set_rpos cur (pexp p)) =? sz
   | CMarshalStreamCur p cur n sum lit => bytes_match (marshal_stream (set_rpos cur (pexp p))) n sum lit
+  | CUnmarshalE input sp fmode out =>
+    pout_eqb (do '(p, r) <- unmarshal_e (esplit sp fmode (sexp input)); Ok (p, len (ebytes r))) out
+  | CUnmarshalSrdE input sp fmode out =>
+    pout_eqb (do '(p, r) <- unmarshal_srd_e (esplit sp fmode (sexp input)); Ok (p, len (ebytes r))) out
   end.
